@@ -224,6 +224,11 @@ pub mod verif {
     super::inlining::optimize_functions(functions, heap)
   }
 
+  /// Takes (and clears) the log of induction-variable eliminations performed so far.
+  pub fn take_iv_elimination_log() -> Vec<(u8, Option<i32>)> {
+    std::mem::take(&mut *super::loop_induction_variable_elimination::verif::LOG.lock().unwrap())
+  }
+
   pub fn run_unused_name_elimination(sources: &mut mir::Sources) {
     super::unused_name_elimination::optimize_sources(sources)
   }
